@@ -288,12 +288,15 @@ def pick_locations(rng, case):
     return None
 
 
-def pick_file_filter(rng, case):
+def pick_file_filter(rng, case, force_both=False):
     """--include / --exclude (command line or configuration file): exclude is applied after include."""
     files = [f["file"] for f in case["program"]["features"]]
     for _ in range(20):
         inc = rng.choice(FILE_PATTERNS + [None])
         exc = rng.choice(FILE_PATTERNS[:6] + [None])
+        if force_both and len(files) >= 2:
+            # (every fourth shard: a file matched by BOTH patterns for certain -- the case the statement is about)
+            inc, exc = rng.choice([r"\.feature", r"f\d\.feature$"]), r"f0\.feature"
         if inc is None and exc is None:
             continue
         keep = [fl for fl in files if (inc is None or re.search(inc, "features/" + fl)) and
@@ -381,14 +384,14 @@ def run(spec, mon):
     # ---- subprocess sample: the process exit code --------------------------------------------
     n_sub = 3 if tier == "quick" else 30
     for i in range(n_sub):
-        case = RB.gen_case(rng, gen={"max_features": 3 if i % 3 == 2 else 2})
+        case = RB.gen_case(rng, gen={"max_features": 3, "min_features": 2} if i % 3 == 2 else {"max_features": 2})
         fault = None
         plan = {}
         if i % 3 == 1 and not case["cfg"]["dry_run"]:
             plan["hook_fault"] = {"k": rng.randrange(1, 6), "exc": "Exception"}
         file_filter, extra_args, ini = None, [], None
         if i % 3 == 2:
-            file_filter, extra_args, ini = pick_file_filter(rng, case)
+            file_filter, extra_args, ini = pick_file_filter(rng, case, force_both=(shard % 4 == 0 and i == 2))
         run_program = case["program"]
         loc_plan = None
         if i % 3 == 0:
